@@ -16,8 +16,9 @@ From V.gen Require Consts.
 From V.common Require Import Wire Varint Protobuf.
 From V.C18 Require Model.
 From V.C03 Require Model.
-From V.C19 Require Import Formats Model Utf8Proofs Proofs MsProofs Net NetProofs.
-From V.C19 Require Sites.
+From V.C19 Require Import Formats Model Utf8Proofs Proofs MsProofs Net NetProofs Consume ConsumeProofs.
+From V.C18 Require Addr.
+From V.C19 Require Sites PanicSites.
 From V.gen Require DecodeSites.
 Import ListNotations.
 Open Scope N_scope.
@@ -469,6 +470,127 @@ Theorem C19_mdns_own_name_ignored :
 Proof. exact mdns_own_name_ignored. Qed.
 Print Assumptions C19_mdns_own_name_ignored.
 
+(* ---------------------------------------------------------------- the consumer stage *)
+(* A decoder that returns a value on which the next line of the event loop panics is, for the
+   node, a decoder that panics on remote bytes.  For every conversion of the crate that contains a
+   panic path and can be reached by a decoded value (PanicSites.v, class PV) the theorems below
+   show that the accepted set of the producing decoder implies the invariant that keeps it safe. *)
+
+(* every byte string PeerId::from_bytes accepts is accepted by the multiaddr crate's PeerId: the
+   `expect` of `From<PeerId> for multiaddr::PeerId` cannot fire on a decoded id (C18's model of
+   litep2p's from_multihash and of libp2p-identity's) *)
+Theorem C19_peer_id_convertible :
+  forall b p, V.C18.Model.of_bytes b = Some p ->
+  convertible p = true /\ convert_peer_id p = Some (V.C18.Model.to_bytes p).
+Proof. intros b p H. split; [exact (peer_id_convertible _ _ H)|exact (convert_peer_id_bytes _ _ H)]. Qed.
+Print Assumptions C19_peer_id_convertible.
+
+(* ... and it is safe on exactly the multihashes litep2p's own from_multihash admits, so a decoder
+   that admits more hands the event loops a value they panic on (witness: an identity multihash
+   with a 43-byte digest parses as a Multihash<64>, is refused by from_bytes, and does not convert) *)
+Theorem C19_conversion_boundary :
+  (forall p, convertible p = V.C18.Model.admits p) /\
+  (forall p, V.C18.Model.admits p = false -> convert_peer_id p = None) /\
+  (let p := V.C18.Model.mkPid 0 (repeat 1 43) in
+   V.C18.Model.mh_parse (V.C18.Model.mh_to_bytes p) = Some p /\ convert_peer_id p = None /\
+   V.C18.Model.of_bytes (V.C18.Model.mh_to_bytes p) = None).
+Proof.
+  split; [exact convertible_iff_admits|]. split; [exact not_admitted_not_convertible|exact identity_43_not_convertible].
+Qed.
+Print Assumptions C19_conversion_boundary.
+
+(* the id derived from an Ed25519 identity key (Noise / TLS handshake, the node's own key) converts *)
+Theorem C19_ed25519_peer_convertible :
+  forall k, length k = 32%nat -> convertible (ed25519_peer k) = true.
+Proof. exact ed25519_peer_convertible. Qed.
+Print Assumptions C19_ed25519_peer_convertible.
+
+(* `Multihash::wrap(IDENTITY, key_enc).expect(..)` of from_public_key_protobuf: an inlined key
+   encoding (<= MAX_INLINE_KEY_LENGTH, extracted from the source) fits the 64-byte multihash *)
+Theorem C19_inline_key_fits : inline_fits = true.
+Proof. exact inline_fits_true. Qed.
+Print Assumptions C19_inline_key_fits.
+
+(* whatever KademliaMessage::from_bytes lets through is usable by the event loop: every peer id in
+   it (closer peers, providers, the publisher of the record) converts into a multiaddr::PeerId *)
+Theorem C19_kad_decoded_usable :
+  forall k o b m, kad_from_bytes k o b = Some m -> kad_usable m = true.
+Proof. exact kad_from_bytes_usable. Qed.
+Print Assumptions C19_kad_decoded_usable.
+
+(* the peers update_routing_table hands to TransportService::add_known_address and
+   RoutingTable::add_known_peer (both append /p2p/<peer> with `peer.into()`): decoded from the
+   message, convertible, never the node itself, at most as many as were decoded (<= k) *)
+Theorem C19_kad_update_peers_convertible :
+  forall k o b m local from e p, kad_from_bytes k o b = Some m ->
+  In e (kad_response local from m) -> In p (kev_pids e) -> convertible p = true.
+Proof. intros k o b m local from e p H. exact (kad_response_pids local from m e p (kad_from_bytes_usable _ _ _ _ H)). Qed.
+Print Assumptions C19_kad_update_peers_convertible.
+
+Theorem C19_kad_update_peers_spec :
+  forall local ps,
+  (forall p, In p (update_peers local ps) -> In p (map kp_pid ps) /\ pid_is local p = false) /\
+  (length (update_peers local ps) <= length ps)%nat.
+Proof. intros local ps. split; [intros p; apply update_peers_spec|apply update_peers_length]. Qed.
+Print Assumptions C19_kad_update_peers_spec.
+
+(* a request: the ids in the events it causes are convertible, and it never makes the loop walk
+   over the remote's peers (only the answer to one of the loop's own queries does) *)
+Theorem C19_kad_request_events :
+  forall k o b m from e, kad_from_bytes k o b = Some m -> In e (snd (kad_request from m)) ->
+  (forall p, In p (kev_pids e) -> convertible p = true) /\
+  match e with KevUpdate _ => False | _ => True end.
+Proof.
+  intros k o b m from e H He. split.
+  - intros p. exact (kad_request_pids from m e p (kad_from_bytes_usable _ _ _ _ H) He).
+  - exact (kad_request_no_update from m e He).
+Qed.
+Print Assumptions C19_kad_request_events.
+
+(* `PeerId::try_from_multiaddr(record.address()).expect(..)` of dial_address: an address that
+   AddressRecord::from_multiaddr keeps (it parsed and ends with /p2p) carries an id litep2p takes ... *)
+Theorem C19_record_has_id_parsed :
+  forall b cs, maddr_parse b = Ok cs -> V.C18.Addr.ends_with_p2p cs = true -> record_has_id b = true.
+Proof. exact parsed_p2p_record_has_id. Qed.
+Print Assumptions C19_record_has_id_parsed.
+
+(* ... and so does an address to which /p2p/<peer> was appended for a decoded peer *)
+Theorem C19_record_has_id_appended :
+  forall b cs x p, maddr_parse b = Ok cs -> V.C18.Model.of_bytes x = Some p ->
+  exists rb, V.C18.Addr.record_new_bytes p b = Some rb /\ record_has_id rb = true.
+Proof. exact appended_record_has_id. Qed.
+Print Assumptions C19_record_has_id_appended.
+
+(* `protocols.get(&protocol).expect(..)` of accept_substream / ProtocolSet::protocol_codec: the
+   message-based listener only ever accepts one of the names it was given *)
+Theorem C19_negotiated_in_set :
+  forall names payload hdr, negotiated_in_set names (wl_negotiate names payload hdr) = true.
+Proof. exact negotiated_in_set_ok. Qed.
+Print Assumptions C19_negotiated_in_set.
+
+(* the WebSocket address parser accepts only host / tcp / ws-or-wss prefixes *)
+Theorem C19_sock_parse_ws_shape :
+  forall cs, sock_parse true cs = true ->
+  exists h t w r, cs = h :: t :: w :: r /\ is_host (fst h) = true /\ fst t = TCP /\ is_ws (fst w) = true.
+Proof. exact sock_parse_ws_implies_tcp_prefix. Qed.
+Print Assumptions C19_sock_parse_ws_shape.
+
+(* the panic-path inventory is the one of the source, every place a remote value can reach names
+   a proved invariant and a harness kind with a consumer stage, and no call of the panicking
+   peer-id conversion is left unexplained *)
+Theorem C19_panic_sites_match :
+  map PanicSites.site_of PanicSites.table = DecodeSites.panic_sites.
+Proof. exact PanicSites.panic_sites_match. Qed.
+Print Assumptions C19_panic_sites_match.
+
+Theorem C19_panic_sites_classified :
+  forallb PanicSites.entry_ok PanicSites.table = true /\
+  forallb (fun e => negb (PanicSites.conversion_entry e) ||
+                    match PanicSites.cls_of e with PanicSites.PV => true | PanicSites.PL => true | _ => false end)
+          PanicSites.table = true.
+Proof. split; [exact PanicSites.table_ok|exact PanicSites.conversions_have_invariants]. Qed.
+Print Assumptions C19_panic_sites_classified.
+
 (* ---------------------------------------------------------------- inventory ties (generated from the Rust source) *)
 Theorem C19_sites_match :
   map (fun e => fst (fst e)) Sites.table = DecodeSites.sites.
@@ -584,6 +706,22 @@ Example C19_ex_mdns :
     [mkMdAns SERVICE_NAME (Some [[112]])] [mkMdExtra [[112]] (Some [[47]; [120]]); mkMdExtra [[113]] (Some [[47]])]
   = [[4; 1; 2; 3; 4]].
 Proof. vm_compute. reflexivity. Qed.
+
+(* the panic-path inventory: how many sites of each class *)
+Example C19_ex_panic_inventory :
+  (PanicSites.count PanicSites.PV, PanicSites.count PanicSites.PS, PanicSites.count PanicSites.PL,
+   PanicSites.count PanicSites.PE, PanicSites.count PanicSites.PT) = (15, 32, 45, 15, 3)%nat.
+Proof. vm_compute. reflexivity. Qed.
+
+(* the consumer stage of a FIND_NODE reply with one peer: the loop answers a request with an empty
+   reply and walks over the peer only when the message answers one of its own queries *)
+Example C19_ex_kad_consume :
+  let p := mkKadPeer (V.C18.Model.mkPid 18 (repeat 1 32)) [] 0 in
+  let m := KFindNode [97] [p] in
+  kad_request None m = (Some (enc_kmsg (msg_find_node_response [97] [])), []) /\
+  kad_response None None m = [KevUpdate [V.C18.Model.mkPid 18 (repeat 1 32)]] /\
+  kad_response (Some (V.C18.Model.mkPid 18 (repeat 1 32))) None m = [KevUpdate []].
+Proof. vm_compute. repeat split; reflexivity. Qed.
 
 (* the inventory: how many sites of each class *)
 Example C19_ex_inventory :
